@@ -92,7 +92,7 @@ def analyse(task):
            'solver_time': 0.0, 'paths': 0, 'nontrivial': 0, 'controls': {}}
     budget = TASK_BUDGET or (90.0 if __import__('os').environ.get('VERIF_TIER_EFFECTIVE', 'quick') == 'quick' else 600.0)
     _deadline[0] = time.time() + budget
-    E = S.Engine(max_paths=128, timeout=20)
+    E = S.Engine(max_paths=64, timeout=8)
     numerics = None
     if task.get('num'):
         numerics = (I.with_numerics(*task['num']), [], [])
